@@ -272,6 +272,10 @@ func (rep *Report) finish(E *Engine, prop string, cfg *PropCfg, tier string, see
 		lines = append(lines, fmt.Sprintf("VIOLATION property=%s replay=%s undecided=%q no-failing-input-found", prop, rp, e))
 	}
 	_ = broken
+	for _, d := range E.P.Dropped {
+		fmt.Printf("SKIPPED-LEMMA: ghost function %s of a contract file no longer type-checks against the code and was not checked\n", d)
+		notes["ghost lemma "+d+" does not type-check against the current code: skipped, its obligations are not part of this run"] = true
+	}
 	for _, l := range knownHits {
 		fmt.Println(l)
 	}
